@@ -111,6 +111,115 @@ type c16MapVec struct {
 	} `json:"pred"`
 }
 
+// part "life" of SessionToken.tla: an assertion in which the IdP states ends of its own, and the
+// age at which the minted token comes back
+type c16LifeIn struct {
+	Subject string      `json:"subject"`
+	Stmts   [][]c16Attr `json:"stmts"`
+	Authn   []string    `json:"authn"` // SessionIndex symbol per AuthnStatement, "" = absent
+	Sna     []string    `json:"sna"`   // position of its SessionNotOnOrAfter
+	Cond    string      `json:"cond"`  // position of Conditions/@NotOnOrAfter
+	Scd     string      `json:"scd"`   // position of SubjectConfirmationData/@NotOnOrAfter
+	Age     int64       `json:"age"`
+}
+
+type c16LifeVec struct {
+	Cfg   c16Cfg          `json:"cfg"`
+	In    c16LifeIn       `json:"in"`
+	Class string          `json:"class"`
+	Why   map[string]bool `json:"why"`
+	At    struct {        // the ends in seconds after the mint (c16Absent = not stated)
+		Sna  []int64 `json:"sna"`
+		Cond int64   `json:"cond"`
+		Scd  int64   `json:"scd"`
+	} `json:"at"`
+	Pred struct {
+		Out    string              `json:"out"`
+		Exp    int64               `json:"exp"`
+		Subj   string              `json:"subj"`
+		Claims map[string][]string `json:"claims"`
+	} `json:"pred"`
+}
+
+func c16LifeKey(v *c16LifeVec) string {
+	var as []string
+	for i, s := range v.In.Authn {
+		if s == "" {
+			s = "-"
+		}
+		as = append(as, s+"/"+v.In.Sna[i])
+	}
+	return fmt.Sprintf("C16:life:%s:authn=[%s]:cond=%s:scd=%s:age=%d", v.Cfg, strings.Join(as, ","), v.In.Cond, v.In.Scd, v.In.Age)
+}
+
+// c16LifeEnds are the concrete instants the IdP states, derived from the vector's offsets.
+type c16LifeEnds struct {
+	Sna  []*time.Time `json:"session_not_on_or_after"`
+	Cond *time.Time   `json:"conditions_not_on_or_after"`
+	Scd  *time.Time   `json:"subject_confirmation_not_on_or_after"`
+}
+
+func c16LifeEndsOf(v *c16LifeVec, mintSec int64, rng *rand.Rand) c16LifeEnds {
+	at := func(off int64) *time.Time {
+		if off == c16Absent {
+			return nil
+		}
+		t := time.Unix(mintSec+off, rng.Int63n(int64(time.Second))).UTC()
+		return &t
+	}
+	var e c16LifeEnds
+	for _, off := range v.At.Sna {
+		e.Sna = append(e.Sna, at(off))
+	}
+	e.Cond, e.Scd = at(v.At.Cond), at(v.At.Scd)
+	return e
+}
+
+// c16LifeAssertion adds the IdP-stated ends to an assertion built by c16BuildAssertion.
+func c16LifeAssertion(a *saml.Assertion, e c16LifeEnds, mintSec int64, recipient string) *saml.Assertion {
+	mint := time.Unix(mintSec, 0).UTC()
+	a.IssueInstant = mint.Add(-2 * time.Second)
+	for i := range a.AuthnStatements {
+		a.AuthnStatements[i].AuthnInstant = mint.Add(-5 * time.Second)
+		if i < len(e.Sna) && e.Sna[i] != nil {
+			t := *e.Sna[i]
+			a.AuthnStatements[i].SessionNotOnOrAfter = &t
+		}
+	}
+	if e.Cond != nil {
+		a.Conditions = &saml.Conditions{NotBefore: mint.Add(-time.Minute), NotOnOrAfter: *e.Cond}
+	} else if mintSec%2 == 0 {
+		a.Conditions = &saml.Conditions{NotBefore: mint.Add(-time.Minute)}
+	}
+	if e.Scd != nil && a.Subject != nil {
+		a.Subject.SubjectConfirmations = []saml.SubjectConfirmation{{Method: "urn:oasis:names:tc:SAML:2.0:cm:bearer",
+			SubjectConfirmationData: &saml.SubjectConfirmationData{NotOnOrAfter: *e.Scd, Recipient: recipient}}}
+	} else if a.Subject != nil && mintSec%3 == 0 {
+		a.Subject.SubjectConfirmations = []saml.SubjectConfirmation{{Method: "urn:oasis:names:tc:SAML:2.0:cm:bearer",
+			SubjectConfirmationData: &saml.SubjectConfirmationData{Recipient: recipient}}}
+	}
+	return a
+}
+
+func c16LifeText(v *c16LifeVec) string {
+	var p []string
+	for i, s := range v.In.Sna {
+		if s != "none" {
+			p = append(p, fmt.Sprintf("AuthnStatement %d SessionNotOnOrAfter = issue %+d s", i+1, v.At.Sna[i]))
+		}
+	}
+	if v.In.Cond != "none" {
+		p = append(p, fmt.Sprintf("Conditions NotOnOrAfter = issue %+d s", v.At.Cond))
+	}
+	if v.In.Scd != "none" {
+		p = append(p, fmt.Sprintf("SubjectConfirmationData NotOnOrAfter = issue %+d s", v.At.Scd))
+	}
+	if len(p) == 0 {
+		return "the assertion states no end"
+	}
+	return strings.Join(p, ", ")
+}
+
 // ---------------------------------------------------------------------------
 // keys of abstract cases
 
